@@ -18,55 +18,67 @@ EXTENDS Naturals, Sequences, FiniteSets, TLC, FiniteSetsExt, Functions, Sequence
 
 CONSTANT Tier
 
-PubSets == {<<>>, <<"A">>, <<"B">>, <<"A", "B">>}
-Signers == {"A", "B", "X"}
+\* keys: A, B (EC, kid = name) and N (EC, published WITHOUT a key id); X is never published
+KidOfKey(k) == IF k = "N" THEN "" ELSE k
+PubSetsAB == {<<>>, <<"A">>, <<"B">>, <<"A", "B">>}
+PubSetsN  == PubSetsAB \cup {<<"N">>, <<"A", "N">>, <<"B", "N">>}
 KidForms == {"own", "none", "other"}
 Publish(S)     == [op |-> "publish", set |-> S, by |-> "", kid |-> ""]
 Verify(by, kf) == [op |-> "verify", set |-> <<>>, by |-> by, kid |-> kf]
-Steps(kf) == {Publish(S) : S \in PubSets} \cup {Verify(b, k) : b \in Signers, k \in kf}
-VSteps(kf) == {s \in Steps(kf) : s.op = "verify"}
+Steps(ps, sg, kf) == {Publish(S) : S \in ps} \cup {Verify(b, k) : b \in sg, k \in kf}
+VSteps(ps, sg, kf) == {s \in Steps(ps, sg, kf) : s.op = "verify"}
 
 \* programs end with a verification (a trailing publish is never observed)
-Progs(n, kf) == LET A == Steps(kf)  V == VSteps(kf) IN
+Progs(n, A, V) ==
   CASE n = 1 -> {<<v>> : v \in V}
     [] n = 2 -> {<<a, v>> : a \in A, v \in V}
     [] n = 3 -> {<<a, b, v>> : a \in A, b \in A, v \in V}
     [] n = 4 -> {<<a, b, d, v>> : a \in A, b \in A, d \in A, v \in V}
     [] OTHER -> {<<a, b, d, e, v>> : a \in A, b \in A, d \in A, e \in A, v \in V}
 
-\* quick: every program of <= 3 steps, and those of 4 steps without mismatching key ids;
-\* thorough: every program of <= 4 steps, and those of 5 steps without mismatching key ids
+\* variants: "full"  = keys A, B, every key-id form of the token, default key set ;
+\*           "plain" = keys A, B, tokens with their own key id or none (longer programs) ;
+\*           "kidless" = keys A, B, N, with and without rp.SkipRemoteCheck (a kid-less cached key is final for kid-less tokens)
 Plain == {"own", "none"}
-Groups == PubSets \X (IF Tier = "quick" THEN {<<1, "full">>, <<2, "full">>, <<3, "full">>, <<4, "plain">>}
-                      ELSE {<<1, "full">>, <<2, "full">>, <<3, "full">>, <<4, "full">>, <<5, "plain">>})
-CasesOf(g) == LET kf == IF g[2][2] = "full" THEN KidForms ELSE Plain
-                  ps == Progs(g[2][1], kf)
-              IN {[init |-> g[1], steps |-> p] : p \in ps}
+Variants == IF Tier = "quick" THEN {<<1, "full">>, <<2, "full">>, <<3, "full">>, <<4, "plain">>, <<1, "kidless">>, <<2, "kidless">>, <<3, "kidlessPlain">>}
+            ELSE {<<1, "full">>, <<2, "full">>, <<3, "full">>, <<4, "full">>, <<5, "plain">>, <<1, "kidless">>, <<2, "kidless">>, <<3, "kidless">>, <<4, "kidlessPlain">>}
+Groups == {<<i, v, sk>> \in PubSetsN \X Variants \X BOOLEAN :
+             /\ (v[2] \in {"full", "plain"} => (i \in PubSetsAB /\ ~sk)) }
+CasesOf(g) ==
+  LET var == g[2][2]
+      ps == IF var \in {"full", "plain"} THEN PubSetsAB ELSE PubSetsN
+      sg == IF var \in {"full", "plain"} THEN {"A", "B", "X"} ELSE {"A", "B", "N", "X"}
+      kf == IF var \in {"plain", "kidlessPlain"} THEN Plain ELSE KidForms IN
+  {[init |-> g[1], steps |-> p, skip |-> g[3]] : p \in Progs(g[2][1], Steps(ps, sg, kf), VSteps(ps, sg, kf))}
 
 -----------------------------------------------------------------------------
 OtherKid(by) == IF by = "A" THEN "B" ELSE "A"
-KidOf(s) == CASE s.kid = "own" -> s.by [] s.kid = "none" -> "" [] OTHER -> OtherKid(s.by)
+KidOf(s) == CASE s.kid = "own" -> KidOfKey(s.by) [] s.kid = "none" -> "" [] OTHER -> OtherKid(s.by)
 
-\* oidc.FindMatchingKey over keys that all have a kid, a fitting type and use=sig: exact match, else the only key for a kid-less token
-Find(kid, keys) == IF kid # "" /\ kid \in keys THEN kid
-                   ELSE IF kid = "" /\ Cardinality(keys) = 1 THEN CHOOSE k \in keys : TRUE
-                   ELSE "none"
+\* oidc.FindMatchingKey over keys of one type with use=sig: exact key-id match, else the only candidate among the kid-less keys
+\* (every key is a candidate for a kid-less token)
+Find(kid, keys) ==
+  IF kid # "" /\ \E k \in keys : KidOfKey(k) = kid THEN CHOOSE k \in keys : KidOfKey(k) = kid
+  ELSE LET cand == {k \in keys : KidOfKey(k) = "" \/ kid = ""} IN
+       IF Cardinality(cand) = 1 THEN CHOOSE k \in cand : TRUE ELSE "none"
 
 (* ---- the code: remoteKeySet.VerifySignature = verifySignatureCached, else one download and verifySignatureRemote ---- *)
-VerifyRP(s, pub, cache) ==
+\* exactMatch(jwkID, jwsID): both empty -> the SkipRemoteCheck option decides, otherwise equality
+ExactMatch(jwk, jws, skip) == IF jwk = "" /\ jws = "" THEN skip ELSE jwk = jws
+VerifyRP(s, pub, cache, skip) ==
   LET kid == KidOf(s)
       ck  == IF cache = {} THEN "none" ELSE Find(kid, cache)
       remote == LET k == Find(kid, pub) IN [v |-> IF k # "none" /\ k = s.by THEN "accept" ELSE "reject", dl |-> 1, cache |-> pub] IN
   IF ck = "none" THEN remote
   ELSE IF ck = s.by THEN [v |-> "accept", dl |-> 0, cache |-> cache]
-  ELSE IF ck = kid THEN [v |-> "reject", dl |-> 0, cache |-> cache]       \* exact kid match whose signature check failed: final
-  ELSE remote                                                             \* kid-less token, single cached key did not verify
+  ELSE IF ExactMatch(KidOfKey(ck), kid, skip) THEN [v |-> "reject", dl |-> 0, cache |-> cache]   \* exact match whose signature check failed: final
+  ELSE remote
 
-RECURSIVE RunRP(_, _, _, _)
-RunRP(steps, i, pub, cache) ==
+RECURSIVE RunRP(_, _, _, _, _)
+RunRP(steps, i, pub, cache, skip) ==
   IF i > Len(steps) THEN <<>>
-  ELSE IF steps[i].op = "publish" THEN <<[v |-> "-", dl |-> 0]>> \o RunRP(steps, i + 1, ToSet(steps[i].set), cache)
-  ELSE LET r == VerifyRP(steps[i], pub, cache) IN <<[v |-> r.v, dl |-> r.dl]>> \o RunRP(steps, i + 1, pub, r.cache)
+  ELSE IF steps[i].op = "publish" THEN <<[v |-> "-", dl |-> 0]>> \o RunRP(steps, i + 1, ToSet(steps[i].set), cache, skip)
+  ELSE LET r == VerifyRP(steps[i], pub, cache, skip) IN <<[v |-> r.v, dl |-> r.dl]>> \o RunRP(steps, i + 1, pub, r.cache, skip)
 
 (* ---- the code: op.OpenIDKeySet asks the storage on every verification ---- *)
 RECURSIVE RunOP(_, _, _)
@@ -76,7 +88,7 @@ RunOP(steps, i, pub) ==
   ELSE LET k == Find(KidOf(steps[i]), pub) IN
        <<[v |-> IF k # "none" /\ k = steps[i].by THEN "accept" ELSE "reject", dl |-> 1]>> \o RunOP(steps, i + 1, pub)
 
-Outcomes(c) == {[rp |-> RunRP(c.steps, 1, ToSet(c.init), {}), op |-> RunOP(c.steps, 1, ToSet(c.init))]}
+Outcomes(c) == {[rp |-> RunRP(c.steps, 1, ToSet(c.init), {}, c.skip), op |-> RunOP(c.steps, 1, ToSet(c.init))]}
 
 -----------------------------------------------------------------------------
 (* ---- the property, on observed outcomes only ---- *)
@@ -86,15 +98,29 @@ PubAt(c, i) == LET js == {j \in 1..(i - 1) : c.steps[j].op = "publish"} IN
 \* what the verifier can know at step i: the set published at its most recent download (observed), nothing before the first one
 KnownAt(c, obs, i) == LET js == {j \in 1..i : obs[j].dl > 0} IN IF js = {} THEN {} ELSE PubAt(c, Max(js))
 
+\* a token whose header names the key id of ANOTHER key is never believed under a key that has an id of its own
+KidConsistent(s) == s.kid \in {"own", "none"} \/ KidOfKey(s.by) = ""
+\* a fitting token: signed by a key that is published now and selected without ambiguity
+Fitting(c, i) == LET s == c.steps[i] IN
+  /\ s.by \in PubAt(c, i) /\ s.kid = "own"
+  /\ (KidOfKey(s.by) # "" \/ PubAt(c, i) = {s.by})
 RulesEntry(e, c, obs) ==
   UNION {
     { <<"C02.rotation.sound:" \o e,    (obs[i].v = "accept") => c.steps[i].by \in KnownAt(c, obs, i)>>,
-      <<"C02.rotation.kid:" \o e,      (obs[i].v = "accept") => c.steps[i].kid \in {"own", "none"}>>,
-      <<"C02.rotation.complete:" \o e, (c.steps[i].by \in PubAt(c, i) /\ c.steps[i].kid = "own") => obs[i].v = "accept">>,
+      <<"C02.rotation.kid:" \o e,      (obs[i].v = "accept") => KidConsistent(c.steps[i])>>,
+      <<"C02.rotation.complete:" \o e, Fitting(c, i) => obs[i].v = "accept">>,
       <<"C02.rotation.refresh:" \o e,  obs[i].dl <= 1>>,
       <<"C09.nopanic:" \o e,           obs[i].v # "panic">> }
     : i \in {j \in 1..Len(c.steps) : c.steps[j].op = "verify"} }
-Rules(c, o) == RulesEntry("rp", c, o.rp) \cup RulesEntry("op", c, o.op)
+\* the same sentences as C13 states them for the remote key set ("a token signed with a newly rotated key triggers a refresh and then
+\* verifies, and an unknown or retired key ID is rejected after at most one refresh"), on sequential programs
+RulesC13(c, obs) ==
+  UNION {
+    { <<"C13.rotation.retired",  (obs[i].v = "accept") => c.steps[i].by \in KnownAt(c, obs, i)>>,
+      <<"C13.rotation.rotated",  Fitting(c, i) => obs[i].v = "accept">>,
+      <<"C13.rotation.oneRefresh", obs[i].dl <= 1>> }
+    : i \in {j \in 1..Len(c.steps) : c.steps[j].op = "verify"} }
+Rules(c, o) == RulesEntry("rp", c, o.rp) \cup RulesEntry("op", c, o.op) \cup RulesC13(c, o.rp)
 Check(c, o) == {r[1] : r \in {x \in Rules(c, o) : ~x[2]}}
 Conforms(c, o) == \E d \in Outcomes(c) :
                     /\ \A i \in 1..Len(c.steps) : o.rp[i].v = d.rp[i].v /\ o.rp[i].dl = d.rp[i].dl
